@@ -78,11 +78,20 @@ WarningOnly == {P \o "extreme_values_detected", "eemeter.data_quality.utc_index"
 Edge(in) == in.lead + in.trail > 0
 LenName == P \o "incorrect_number_of_total_days"
 CoverageNames == {P \o "too_many_days_with_missing_data", P \o "too_many_days_with_missing_meter_data", P \o "too_many_days_with_missing_temperature_data"}
+\* the coverage verdicts of a baseline when c days of the span are countable.  from_series trims the edge days, so the last
+\* day of the span is the last timestamp and counts zero (c = span - 1); in a frame with trailing days the last day of the
+\* span has a next timestamp and its period may be counted (c = span): both follow the statement's parenthesis
+CovSet(in, c) ==
+  (IF Under90(c - Cardinality(Set(in.omiss) \cup Set(in.tmiss)), in.span) THEN {P \o "too_many_days_with_missing_data"} ELSE {})
+  \cup (IF Under90(c - Cardinality(Set(in.omiss)), in.span) THEN {P \o "too_many_days_with_missing_meter_data"} ELSE {})
+  \cup (IF Under90(c - Cardinality(Set(in.tmiss)), in.span) THEN {P \o "too_many_days_with_missing_temperature_data"} ELSE {})
 EdgeClauses(in, out) ==
   << <<"WellFormedInputAccepted", out.res = "ok">>,
      <<"SpanCriterionIgnoresEdgeDaysWithoutUsage", out.res = "ok" =>
           ((LenName \in Set(out.dq)) <=> (in.span > 365 \/ in.span < 329)) /\ ((LenName \in Set(out.dqSeries)) <=> (LenName \in Set(out.dq)))>>,
-     <<"CoverageVerdictSameFromBothEntryPoints", out.res = "ok" => Set(out.dq) \cap CoverageNames = Set(out.dqSeries) \cap CoverageNames>>,
+     <<"CoverageVerdictSameFromBothEntryPoints", out.res = "ok" =>
+          /\ Set(out.dqSeries) \cap CoverageNames = CovSet(in, in.span - 1)
+          /\ Set(out.dq) \cap CoverageNames \in {CovSet(in, in.span - 1)} \cup (IF in.trail > 0 THEN {CovSet(in, in.span)} ELSE {})>>,
      <<"WarningsNeverInTheVerdict", out.res = "ok" => Set(out.dq) \cap WarningOnly = {}>> >>
 Clauses(in, out) ==
   IF Edge(in) THEN EdgeClauses(in, out) ELSE
